@@ -7,8 +7,12 @@ Regenerates, from the CURRENT repo files, instrumented copies in which the file-
 listed functions (and nothing else) go through the shim dispatch of package libs/common (hook file
 /verif/hooks/libs/common/vfs_hook.go: VerifOpenFile, VerifRename, VerifRemove, VerifReadFile, ...):
 
-    libs/common/os.go          func WriteFileAtomic   os.OpenFile / os.Rename / os.Remove / ...
-    types/priv_validator.go    func LoadFilePV        ioutil.ReadFile, and cmn.Exit -> cmn.VerifExit
+    libs/common/os.go          func WriteFileAtomic (required)   os.OpenFile / os.Rename / os.Remove / ...
+                               and, if present and redirectable, the other small file helpers of that file
+                               (WriteFile, MustWriteFile, ReadFile, MustReadFile, FileExists, EnsureDir), so that a
+                               signer that is changed to use one of them still runs on the shim
+    types/priv_validator.go    func LoadFilePV (required)        ioutil.ReadFile, cmn.Exit -> cmn.VerifExit
+                               and every other function of that file (today none of them touches os / ioutil)
 
 The rewrite is textual and identifier-level: `os.OpenFile` -> `VerifOpenFile` (`cmn.VerifOpenFile` outside
 package common), `*os.File` -> `VerifFile`; flags, FileMode, error predicates and every byte outside the listed
@@ -73,11 +77,19 @@ PURE = {
 WRITE_OPENERS = {"VerifOpenFile", "VerifCreate", "VerifWriteFile", "VerifTempFile"}
 READERS = {"VerifReadFile", "VerifOpen", "VerifOpenFile"}
 
+# funcs: required functions with the category of call they must still contain; optional: instrumented if they
+# exist and contain nothing the shim cannot redirect (otherwise left alone, with a note on stderr);
+# whole_file: every other code line of the file is rewritten too (label "(elsewhere)").
 TARGETS = [
     {"src": "libs/common/os.go", "tag": "os", "funcs": {"WriteFileAtomic": WRITE_OPENERS},
-     "baseline": ["WriteFileAtomic:os.OpenFile->VerifOpenFile", "WriteFileAtomic:os.Remove->VerifRemove",
+     "optional": ["EnsureDir", "FileExists", "ReadFile", "MustReadFile", "WriteFile", "MustWriteFile"],
+     "baseline": ["EnsureDir:os.MkdirAll->VerifMkdirAll", "EnsureDir:os.Stat->VerifStat", "FileExists:os.Stat->VerifStat",
+                  "MustReadFile:Exit->VerifExit", "MustReadFile:ioutil.ReadFile->VerifReadFile",
+                  "MustWriteFile:Exit->VerifExit", "ReadFile:ioutil.ReadFile->VerifReadFile",
+                  "WriteFile:ioutil.WriteFile->VerifWriteFile",
+                  "WriteFileAtomic:os.OpenFile->VerifOpenFile", "WriteFileAtomic:os.Remove->VerifRemove",
                   "WriteFileAtomic:os.Rename->VerifRename"]},
-    {"src": "types/priv_validator.go", "tag": "priv_validator", "funcs": {"LoadFilePV": READERS},
+    {"src": "types/priv_validator.go", "tag": "priv_validator", "funcs": {"LoadFilePV": READERS}, "whole_file": True,
      "baseline": ["LoadFilePV:cmn.Exit->cmn.VerifExit", "LoadFilePV:cmn.Exit->cmn.VerifExit",
                   "LoadFilePV:ioutil.ReadFile->cmn.VerifReadFile"]},
 ]
@@ -221,50 +233,70 @@ def instrument(repo, t, source=None):
             raise GenError("%s does not import %s" % (path, COMMON_IMPORT))
         q = imports[COMMON_IMPORT] + "."
     segs = segments(src)
-    spans = []
-    for fn in t["funcs"]:
-        spans.append((fn,) + func_body(src, segs, fn))
+    spans = []  # (label, start, end, required category or None, optional?)
+    for fn, need in t["funcs"].items():
+        spans.append((fn,) + func_body(src, segs, fn) + (need, False))
+    for fn in t.get("optional", []):
+        try:
+            spans.append((fn,) + func_body(src, segs, fn) + (None, True))
+        except GenError:
+            pass  # an optional helper that does not exist (any more) is simply not instrumented
     spans.sort(key=lambda x: x[1])
+    if t.get("whole_file"):
+        rest, pos = [], 0
+        for sp in spans:
+            rest.append(("(elsewhere)", pos, sp[1], None, False))
+            pos = sp[2]
+        rest.append(("(elsewhere)", pos, len(src), None, False))
+        spans = sorted(spans + rest, key=lambda x: x[1])
     redirects, edits, used_pkgs = [], [], set()
-    for fn, bs, be in spans:
-        got = set()
-        for kind, s, e in segs:
-            if kind != "code" or e <= bs or s >= be:
-                continue
-            s, e = max(s, bs), min(e, be)
-            for mm in re.finditer(r"(\*\s*)?(?<![\w.])(os|ioutil)\s*\.\s*([A-Za-z_]\w*)", src[s:e]):
-                star, p, ident = mm.group(1), mm.group(2), mm.group(3)
-                a, b = s + mm.start(), s + mm.end()
-                if (p, ident) == ("os", "File"):
-                    if not star:
-                        raise GenError("%s: func %s uses os.File other than as *os.File" % (path, fn))
-                    edits.append((a, b, q + "VerifFile"))
-                    redirects.append("%s:*os.File->%sVerifFile" % (fn, q))
-                    used_pkgs.add(p)
+    exit_pat = r"(?<![\w.])Exit(?=\s*\()" if pkg == "common" else r"(?<![\w.])" + re.escape(q) + r"Exit(?=\s*\()"
+    for fn, bs, be, need, optional in spans:
+        got, f_edits, f_red, f_pkgs = set(), [], [], set()
+        try:
+            for kind, s, e in segs:
+                if kind != "code" or e <= bs or s >= be:
                     continue
-                if star:
-                    a = s + mm.start(2)  # a dereference/multiplication in front of a call: keep the star
-                if (p, ident) in REWRITE:
-                    new = REWRITE[(p, ident)]
-                    edits.append((a, b, q + new))
-                    redirects.append("%s:%s.%s->%s%s" % (fn, p, ident, q, new))
-                    got.add(new)
-                    used_pkgs.add(p)
-                elif PURE[p].match(ident):
-                    continue
-                else:
-                    raise GenError("%s: func %s uses %s.%s, which the vfs shim cannot redirect and which is not "
-                                   "known to be free of file-system access; extend /verif/hooks/libs/common/"
-                                   "vfs_hook.go and this generator" % (path, fn, p, ident))
-            exit_pat = r"(?<![\w.])Exit(?=\s*\()" if pkg == "common" else r"(?<![\w.])" + re.escape(q) + r"Exit(?=\s*\()"
-            for mm in re.finditer(exit_pat, src[s:e]):
-                edits.append((s + mm.start(), s + mm.end(), q + "VerifExit"))
-                redirects.append("%s:%sExit->%sVerifExit" % (fn, q or "", q))
-        need = t["funcs"][fn]
-        if not (got & need):
+                s, e = max(s, bs), min(e, be)
+                for mm in re.finditer(r"(\*\s*)?(?<![\w.])(os|ioutil)\s*\.\s*([A-Za-z_]\w*)", src[s:e]):
+                    star, p, ident = mm.group(1), mm.group(2), mm.group(3)
+                    a, b = s + mm.start(), s + mm.end()
+                    if (p, ident) == ("os", "File"):
+                        if not star:
+                            raise GenError("%s: func %s uses os.File other than as *os.File" % (path, fn))
+                        f_edits.append((a, b, q + "VerifFile"))
+                        f_red.append("%s:*os.File->%sVerifFile" % (fn, q))
+                        f_pkgs.add(p)
+                        continue
+                    if star:
+                        a = s + mm.start(2)  # a dereference/multiplication in front of a call: keep the star
+                    if (p, ident) in REWRITE:
+                        new = REWRITE[(p, ident)]
+                        f_edits.append((a, b, q + new))
+                        f_red.append("%s:%s.%s->%s%s" % (fn, p, ident, q, new))
+                        got.add(new)
+                        f_pkgs.add(p)
+                    elif PURE[p].match(ident):
+                        continue
+                    else:
+                        raise GenError("%s: func %s uses %s.%s, which the vfs shim cannot redirect and which is "
+                                       "not known to be free of file-system access; extend /verif/hooks/libs/"
+                                       "common/vfs_hook.go and this generator" % (path, fn, p, ident))
+                for mm in re.finditer(exit_pat, src[s:e]):
+                    f_edits.append((s + mm.start(), s + mm.end(), q + "VerifExit"))
+                    f_red.append("%s:%sExit->%sVerifExit" % (fn, q, q))
+        except GenError as err:
+            if not optional:
+                raise
+            sys.stderr.write("gen_c04_vfs.py: note: optional helper left un-instrumented: %s\n" % err)
+            continue
+        if need is not None and not (got & need):
             raise GenError("%s: func %s no longer contains a call of the expected kind (one of %s after redirect; "
                            "found %s). The file I/O of this function has moved: update tools/gen_c04_vfs.py"
                            % (path, fn, sorted(need), sorted(got) or "none"))
+        edits += f_edits
+        redirects += f_red
+        used_pkgs |= f_pkgs
     out = src
     for a, b, new in sorted(edits, reverse=True):
         out = out[:a] + new + out[b:]
